@@ -113,7 +113,10 @@ class Impl:
             self.caller_arrays.append(c)
             return f"addmin {t}"
         if kind == "addts":
-            t, c, e = self.payload("t")
+            tie = len(op) > 3 and op[3] == "tie" and k.G.has_edge(op[1], op[2])
+            # a second transition state whose energy ties bit for bit with the stored one (mirror-image
+            # saddles of a symmetric surface) but whose coordinates differ
+            t, c, e = self.payload("t", energy=float(k.get_ts_energy(op[1], op[2])) if tie else None)
             k.add_ts(c, e, op[1], op[2])
             c *= -3.0
             self.caller_arrays.append(c)
@@ -150,6 +153,8 @@ def all_ops(n: int, edges: list[tuple[int, int]], rng) -> list[tuple]:
         for v in range(n):
             if u <= v or rng.random() < 0.3:      # both orientations of the endpoints
                 ops.append(("addts", u, v))
+    for (u, v) in edges:                           # second transition state with an exactly tied energy
+        ops.append(("addts", u, v, "tie") if rng.random() < 0.5 else ("addts", v, u, "tie"))
     for k in range(n):
         ops.append(("rmmin", k))
     for r in range(0, n + 1):
@@ -281,7 +286,8 @@ def random_history(rng, length: int, nmax: int) -> list[tuple]:
                 u, v = rng.choice(sorted(edges))
                 if rng.random() < 0.5:
                     u, v = v, u
-            out.append(("addts", u, v)); edges.add((min(u, v), max(u, v)))
+            out.append(("addts", u, v, "tie") if rng.random() < 0.3 else ("addts", u, v))
+            edges.add((min(u, v), max(u, v)))
         elif r < 0.72:
             k = rng.randrange(n)
             out.append(("rmmin", k))
@@ -379,6 +385,57 @@ def predicate_history(ops: list[tuple], analyses: bool, rng, surface: str = "fd"
     return None
 
 
+def failed_op_coherence(ops: list[tuple], bad: tuple) -> tuple[str, str, dict] | None:
+    """a removal that names something not stored (a transition state listed twice or already gone, an index past
+    the end) may raise, and may have removed the valid entries before it, but whatever it does the reported
+    counts must still equal what is stored, the numbering must stay 0..n-1 and no stored datum may be invented"""
+    impl = Impl()
+    k = impl.k
+    for op in ops:
+        impl.apply(op)
+    outcome = "returned"
+    try:
+        impl.apply(bad)
+    except Exception as e:
+        outcome = f"raised {type(e).__name__}"
+    line = _line_of(bad)
+    labels = sorted(int(x) for x in k.G.nodes)
+    if labels != list(range(k.n_minima)) or k.n_minima != k.G.number_of_nodes():
+        return ("failed-op-coherence:n_minima:" + bad[0],
+                f"`{line}` {outcome}; afterwards n_minima={k.n_minima} but the stored labels are {labels}", {})
+    if k.n_ts != k.G.number_of_edges():
+        return ("failed-op-coherence:n_ts:" + bad[0],
+                f"`{line}` {outcome}; afterwards n_ts={k.n_ts} but {k.G.number_of_edges()} transition states are stored", {})
+    for i in range(k.n_minima):
+        if impl.token_of(k.get_minimum_coords(i), k.get_minimum_energy(i)) == "?":
+            return ("failed-op-coherence:data:" + bad[0], f"`{line}` {outcome}; minimum {i} holds data never given", {})
+    for u, v in k.G.edges():
+        if impl.token_of(k.get_ts_coords(u, v), k.get_ts_energy(u, v)) == "?":
+            return ("failed-op-coherence:data:" + bad[0], f"`{line}` {outcome}; ts {u}-{v} holds data never given", {})
+    return None
+
+
+def shadow(ops: list[tuple]) -> tuple[int, list[tuple[int, int]]]:
+    """(n, sorted edge list) after a valid history"""
+    impl = Impl()
+    for op in ops:
+        impl.apply(op)
+    return impl.k.n_minima, sorted((min(int(u), int(v)), max(int(u), int(v))) for u, v in impl.k.G.edges())
+
+
+def bad_removals(rng, n: int, edges: list[tuple[int, int]]) -> list[tuple]:
+    out = [("rmmin", n + rng.randrange(0, 3)), ("rmminima", sorted(rng.sample(range(n), min(n, 2))) + [n + 1], True)]
+    if edges:
+        u, v = rng.choice(edges)
+        out += [("rmtss", [(u, v), (v, u)]), ("rmtss", [(u, v), (u, v)]),
+                ("rmtss", [rng.choice(edges), (u, v), (n + 1, u)])]
+        missing = [(a, b) for a in range(n) for b in range(a, n) if (a, b) not in edges]
+        if missing:
+            out += [("rmtss", [(u, v), rng.choice(missing)]), ("rmts",) + rng.choice(missing),
+                    ("rmtss", [rng.choice(missing)] + [rng.choice(edges)])]
+    return out
+
+
 _SURF = {}
 
 
@@ -437,12 +494,29 @@ def predicates(ctx: Ctx) -> None:
         ("corpus:second-ts-on-pair", [("addmin",), ("addmin",), ("addts", 0, 1), ("addts", 1, 0)]),
         ("corpus:self-loop-remove", [("addmin",), ("addmin",), ("addts", 1, 1), ("addts", 0, 1), ("rmmin", 1)]),
         ("corpus:bulk-remove", [("addmin",)] * 5 + [("addts", 0, 4), ("addts", 1, 3), ("rmminima", [3, 0], True)]),
+        ("corpus:tied-energy-second-ts", [("addmin",)] * 3 + [("addts", 0, 1), ("addts", 1, 0, "tie"), ("addts", 2, 2),
+                                                             ("addts", 2, 2, "tie"), ("rmmin", 0)]),
     ]
     for name, ops in corpus:
         r = predicate_history(ops, False, rng)
         ctx.stats.case({"stream": "predicate-corpus", "name": name}, True)
         if r:
             ctx.fail(r[0], r[1], {"ops": [_line_of(o) for o in ops], "raw_ops": ops, **r[2]})
+    # removals that name something not stored: counts and numbering stay coherent whatever the call does
+    fixed = [[("addmin",), ("addmin",), ("addts", 0, 1)],
+             [("addmin",)] * 4 + [("addts", 0, 1), ("addts", 1, 2), ("addts", 2, 2), ("addts", 0, 3)]]
+    hs = fixed + [random_history(rng, rng.randrange(6, 25), 7) for _ in range(ctx.scale(25, 150))]
+    for ops in hs:
+        nn, ee = shadow(ops)
+        if nn == 0:
+            continue
+        for bad in bad_removals(rng, nn, ee):
+            r = failed_op_coherence(ops, bad)
+            ctx.stats.case({"stream": "predicate-failed-removal", "op": bad[0], "n": nn, "m": len(ee)}, True)
+            if r:
+                ctx.fail(r[0], r[1], {"ops": [_line_of(o) for o in ops] + [_line_of(bad)], "raw_ops": ops,
+                                      "bad_op": bad})
+                break
     n = ctx.scale(40, 300) * (4 if getattr(ctx, "deep_search", False) else 1)
     for i in range(n):
         ops = random_history(rng, ctx.scale(40, 120), 12)
@@ -477,6 +551,13 @@ def replay(ctx: Ctx, data: dict) -> bool:
     ops = [tuple(tuple(x) if isinstance(x, list) and x and isinstance(x[0], list) else x for x in o)
            for o in data.get("raw_ops", [])]
     ops = [tuple(o) for o in ops]
+    if "bad_op" in data:
+        b = data["bad_op"]
+        bad = tuple([tuple(x) for x in e] if isinstance(e, list) and e and isinstance(e[0], list) else e for e in b)
+        r = failed_op_coherence(ops, bad)
+        if r:
+            print(f"  {r[0]}: {r[1]}")
+        return r is None
     r = predicate_history(ops, True, random.Random(1), data.get("surface", "fd"))
     if r:
         print(f"  {r[0]}: {r[1]}")
